@@ -17,7 +17,7 @@ RULE = ("case = a history: prelude (2-3 matrices built by add_frame and/or by th
         "reader-style append, interleaved lookups) + 1500 random bodies of length <= 40; thorough: every body of length <= 3 + "
         "20000 random bodies of length <= 60. Non-trivial = distinct history whose body contains an edit and a lookup follows it.")
 EXHAUSTIVE = {"quick": False, "thorough": False}
-PARTIAL = ["frame_by_header_id is a plain scan like frame_by_name and is not exercised separately",
+PARTIAL = ["frame_by_header_id (a plain scan) is exercised on snapshots of a matrix (case 'hdr'), not inside the edit histories",
            "frame objects are compared through harness-assigned handles (object identity)"]
 ASSUMPTIONS = ["edits go through the matrix API or through attributes of a frame object; direct mutation of db.frames by the caller "
                "is outside the property (only the readers' own db.frames.append is modelled)"]
@@ -155,6 +155,29 @@ def gen(rng, tier, shard, nshards):
     for _ in range(total):
         pre, nmats, nobjs = prelude(rng.randrange(3))
         yield mkcase(pre, random_body(rng, nmats, nobjs, 40 if tier == "quick" else 60), nmats)
+    for _ in range(total // 3 + 1):
+        yield gen_hdr(rng)
+
+
+def gen_hdr(rng):
+    n = rng.randint(0, 5)
+    frames = [[h, rng.choice([None, 0, 0, 1, 2, 0x123456])] for h in range(n)]
+    return {"op": "hdr", "c": {"frames": frames, "q": rng.choice([0, 0, 1, 2, 3, 0x123456])}}
+
+
+def observe_hdr(c):
+    db = cm.CanMatrix()
+    objs = []
+    for h, hid in c["frames"]:
+        fr = cm.Frame("F%d" % h, arbitration_id=cm.ArbitrationId(h + 1, False), size=8)
+        fr.header_id = hid
+        db.add_frame(fr)
+        objs.append(fr)
+    try:
+        r = db.frame_by_header_id(c["q"])
+    except Exception:  # noqa
+        return {"ret": "raised"}
+    return {"ret": None if r is None else next(i for i, o in enumerate(objs) if o is r)}
 
 
 def neighbours(case, rng, shard, nshards):
@@ -264,6 +287,8 @@ class Run(object):
 
 
 def observe(case):
+    if case["op"] == "hdr":
+        return observe_hdr(case["c"])
     r = Run()
     outs, snaps = [], []
     for op in case["c"]["ops"]:
@@ -279,10 +304,16 @@ def observe(case):
 
 
 def project(impl):
+    if "ret" in impl:
+        return {"ret": impl["ret"]}
     return {"outs": impl["outs"]}
 
 
 def features(case, impl):
+    if case["op"] == "hdr":
+        yield "op=byHeaderId"
+        yield "header-id-query=%s" % ("0" if case["c"]["q"] == 0 else "other")
+        return
     a, n = case["c"]["body"]
     body = case["c"]["ops"][a:a + n]
     yield "body-len=%s" % (n if n <= 3 else "4-10" if n <= 10 else ">10")
@@ -292,12 +323,16 @@ def features(case, impl):
 
 
 def nontrivial(case, impl):
+    if case["op"] == "hdr":
+        return bool(case["c"]["frames"])
     a, n = case["c"]["body"]
     body = case["c"]["ops"][a:a + n]
     return any(not o[0].startswith("by") for o in body)
 
 
 def shrink_candidates(case):
+    if case["op"] == "hdr":
+        return
     a, n = case["c"]["body"]
     ops = case["c"]["ops"]
     body = ops[a:a + n]
